@@ -294,6 +294,151 @@ def gen_exhaustive(maxlen):
     return ops
 
 
+# ---- the dictionary of the tree under test --------------------------------------------------------------------------
+# A value the code treats specially (a well-known prefix, a magic word, a format fragment) is spelled in the code.  The
+# integer and string literals of the CURRENT sources therefore become group values, address prefixes and text fragments.
+
+CONV = re.compile(r"%[-+ 0#]*\d*(?:\.\d+)?(?:hh|h|ll|l|j|z|t)?[diuxXsc]")
+
+
+def _groups_of_int(v):
+    if v < 0x10000:
+        return (v,)
+    if v < 1 << 32:
+        return (v >> 16, v & 0xffff)
+    return tuple((v >> s) & 0xffff for s in (48, 32, 16, 0))
+
+
+def _address_like(s):
+    if not (":" in s or "." in s) or "\\" in s or " " in s or "/" in s or "(" in s:
+        return False
+    if re.search(r"\.[ch]$", s):
+        return False
+    rest = CONV.sub("", s)
+    return all(c in "0123456789abcdefABCDEF:." for c in rest)
+
+
+def literal_dictionary():
+    """-> (prefixes: {tuple of 16-bit groups: origin}, texts: [(template, origin)], words32: [int])"""
+    L = vlib.source_literals()
+    prefixes = {}
+    words32 = []
+    for v in L["ints"]:
+        prefixes.setdefault(_groups_of_int(v), "integer literal %#x" % v)
+        if 0xffff < v < 1 << 32:
+            words32.append(v)
+    texts = []
+    for s in L["strings"]:
+        if not _address_like(s):
+            continue
+        texts.append((s, "string literal %r" % s))
+        # leading run of hex groups of the fragment: an address prefix spelled as text
+        gs = []
+        for tok in CONV.sub("%", s).split(":"):
+            if re.fullmatch(r"[0-9a-fA-F]{1,4}", tok):
+                gs.append(int(tok, 16))
+            else:
+                break
+        if gs and len(gs) <= 7:
+            prefixes.setdefault(tuple(gs), "string literal %r" % s)
+            if len(gs) >= 2:
+                words32.append(gs[0] << 16 | gs[1])
+    return prefixes, texts, sorted(set(words32))
+
+
+def _fill(r, mask_bits, n, style):
+    """n groups, zero where the mask says so; style 0: random non-zero words, 1: boundary words"""
+    out = []
+    for i in range(n):
+        if mask_bits >> (n - 1 - i) & 1:
+            out.append(0)
+        else:
+            out.append(nzword(r) if style == 0 else r.choice([1, 0xffff, 0x8000, 0xff]))
+    return out
+
+
+def gen_literals(r, k):
+    """for every literal of the tree: a few hundred addresses 'literal prefix + structured tail' (every zero/non-zero pattern of
+    the tail, hence zero runs of every start and length; embedded-IPv4-looking tails), the literal at other positions,
+    IPv4 addresses made of its bytes; the address-like string literals as whole texts and spliced into valid texts."""
+    prefixes, texts, words32 = literal_dictionary()
+    ops = []
+    per = {}
+    v4tails = [(a, b, c, d) for a in (0, 1, 192, 255) for b in (0, 168) for c in (0, 2) for d in (0, 1, 33, 255)]
+
+    def emit(words, origin, count=True):
+        ops.append(("rt6 " + a6hex(words), ("rt6", tuple(words), "literal")))
+        if count:
+            per[origin] = per.get(origin, 0) + 1
+
+    for pre, origin in sorted(prefixes.items()):
+        m = len(pre)
+        t = 8 - m
+        if t <= 0:
+            emit(list(pre[:8]), origin)
+            continue
+        nfill = max(1, -(-130 // (1 << t))) * k                 # at least ~130 (quick) patterned tails per literal
+        for mask in range(1 << t):
+            for j in range(nfill):
+                emit(list(pre) + _fill(r, mask, t, j % 2), origin)
+        # embedded-IPv4-looking tails: zeros, optionally ffff, then the quad
+        for (a, b, c, d) in r.sample(v4tails, 12):
+            quad = [a << 8 | b, c << 8 | d]
+            if t >= 2:
+                emit(list(pre) + [0] * (t - 2) + quad, origin)
+            if t >= 3:
+                emit(list(pre) + [0] * (t - 3) + [0xffff] + quad, origin)
+                emit(list(pre) + [0] * (t - 3) + [nzword(r)] + quad, origin)
+            if t >= 4:
+                emit(list(pre) + [nzword(r)] + [0] * (t - 3) + quad, origin)
+        # the literal somewhere else in the address
+        for pos in range(1, 9 - m):
+            for _ in range(8 if m == 1 else 24):
+                w = _fill(r, r.getrandbits(8), 8, 0)
+                w[pos:pos + m] = list(pre)
+                emit(w, origin)
+    # IPv4: the 32-bit literals (and neighbours) as addresses, and as the embedded quad of the IPv4 forms
+    for v in words32:
+        for x in (v, v ^ 1, v ^ 0x80000000, (v + 1) & 0xffffffff, (v - 1) & 0xffffffff):
+            ops.append(("rt4 %08x" % x, ("rt4", x)))
+        for head in ([0, 0, 0, 0, 0, 0], [0, 0, 0, 0, 0, 0xffff], [0, 0, 0, 0, 1, 0xffff], [nzword(r), 0, 0, 0, 0, 0]):
+            w = head + [v >> 16, v & 0xffff]
+            ops.append(("rt6 " + a6hex(w), ("rt6", tuple(w), "literal")))
+    # texts
+    nums = ["0", "1", "9", "33", "192", "255", "256"]
+    for tmpl, origin in texts:
+        for _ in range(12 * k):
+            def sub(mo, _r=r):
+                c = mo.group(0)[-1]
+                if c == "s":
+                    return _r.choice(["", "ffff:", "1:", "0:"])
+                if c in "xX":
+                    return "%x" % nzword(_r)
+                return _r.choice(nums)
+            txt = CONV.sub(sub, tmpl)
+            ops.append(("p " + xhex(txt), ("p", txt, "literal-text")))
+            ops.append(("p6 " + xhex(txt), ("p6", txt, "literal-text")))
+            # fragment spliced into valid texts: as head, as tail, in the middle at a separator
+            v = rand_render(r)
+            cut = [i for i, ch in enumerate(v) if ch == ":"] or [0]
+            i = r.choice(cut)
+            for t2 in (txt + v, v + txt, v[:i] + ":" + txt.strip(":") + v[i:], txt + rand_quad(r), txt.rstrip(":") + ":" + rand_group(r)):
+                ops.append(("p " + xhex(t2), ("p", t2, "literal-splice")))
+            # what the text denotes (when the platform accepts it) seeds formatter inputs around it
+            try:
+                b = socket.inet_pton(socket.AF_INET6, txt)
+            except (OSError, ValueError):
+                b = None
+            if b:
+                w = [int.from_bytes(b[2 * j:2 * j + 2], "big") for j in range(8)]
+                emit(w, origin, False)
+                for j in range(8):
+                    w2 = list(w)
+                    w2[j] = 0 if w2[j] else nzword(r)
+                    emit(w2, origin, False)
+    return ops, per, len(prefixes), len(texts)
+
+
 def gen_cmp(r, n):
     ops = []
     for _ in range(n):
@@ -341,10 +486,14 @@ def oracle_line(tag, line):
     if kind in ("rt4", "rt6"):
         f = fields(line)
         want = ("4:%08x" % tag[1]) if kind == "rt4" else ("6:" + a6hex(tag[1]))
+        try:
+            txt = repr(unx(f["s"]))
+        except (KeyError, ValueError):
+            txt = f.get("s")
         if f.get("lib") != want:
-            bad.append(("rt-lib", "formatted %s, library parses it back as %s" % (f.get("s"), f.get("lib"))))
+            bad.append(("rt-lib", "address %s is formatted as %s, the library parses that back as %s" % (want, txt, f.get("lib"))))
         if f.get("pton") != want:
-            bad.append(("rt-pton", "formatted %s, inet_pton parses it back as %s" % (f.get("s"), f.get("pton"))))
+            bad.append(("rt-pton", "address %s is formatted as %s, inet_pton parses that back as %s" % (want, txt, f.get("pton"))))
     elif kind == "p":
         f = fields(line)
         for fam in ("p4", "p6"):
@@ -465,6 +614,8 @@ def run(pid, tier):
     for f, ops in corpus:
         groups.append(("corpus:" + f, ops))
     groups.append(("fmt6", gen_fmt6(r, 3 * k, 150 * k)))
+    lit_ops, lit_per, lit_nprefix, lit_ntext = gen_literals(r, 1 if tier == "quick" else 4)
+    groups.append(("literals", lit_ops))
     groups.append(("fmt4", gen_fmt4(r, 2000 * k)))
     groups.append(("buffers", gen_buffers(r, 6 * k)))
     groups.append(("strings", gen_strings(r, 3000 * k, 12000 * k, 3000 * k)))
@@ -473,7 +624,10 @@ def run(pid, tier):
 
     stats = {"ops": 0, "groups": {}, "forms6": {}, "parse": {"lib_accept": 0, "lib_reject": 0, "pton_accept": 0, "pton_reject": 0,
                                                            "both_accept": 0, "lib_only_accept": 0, "pton_only_accept": 0},
-             "by_class": {}, "fmt_rc": {}, "buffer_lengths": 0, "corpus": len(corpus), "lib_only_examples": []}
+             "by_class": {}, "fmt_rc": {}, "buffer_lengths": 0, "corpus": len(corpus), "lib_only_examples": [],
+             "literals": {"prefixes": lit_nprefix, "address_like_strings": lit_ntext, "addresses": sum(lit_per.values()),
+                          "min_addresses_per_literal": min(lit_per.values()) if lit_per else 0,
+                          "forms6": {}}}
     distinct = set()
     fails = []          # (group, op, tag, line, clause, msg)
     diverg = []         # (group, op, impl line, model line, field)
@@ -525,6 +679,8 @@ def run(pid, tier):
                 if kind == "rt6":
                     fm = form_of(tag[1])
                     stats["forms6"][fm] = stats["forms6"].get(fm, 0) + 1
+                    if len(tag) > 2:
+                        stats["literals"]["forms6"][fm] = stats["literals"]["forms6"].get(fm, 0) + 1
                 elif kind == "p":
                     f = fields(il)
                     la = f.get("lib", "-") != "-"
@@ -561,10 +717,18 @@ def run(pid, tier):
     # coverage gate: the generator must have reached every output form of the formatter
     need = {"plain", "v4compat", "v4mapped"} | {"run@%d+%d" % (p, l) for p in range(8) for l in range(2, 9 - p) if not (p == 0 and l == 6)}
     missing = sorted(need - set(stats["forms6"]))
+    # ... and the dictionary of the tree must have been used: every literal with its few hundred structured tails
+    if lit_nprefix == 0 or stats["literals"]["min_addresses_per_literal"] < 100:
+        missing.append("literal prefixes of the sources x structured tails (%s)" % stats["literals"])
+    if lit_ntext == 0:
+        missing.append("address-like string literals of the sources")
     rep.cov.update({
         "evaluations": stats["ops"], "distinct_nontrivial": len(distinct),
         "rule": "IPv6: all 256 zero/non-zero word masks x random/boundary fillings, every run position x length, embedded IPv4 forms "
-                "over a structured IPv4 sample and their near misses; IPv4: products of boundary octets + random; every buffer "
+                "over a structured IPv4 sample and their near misses; every integer literal of the current sources (16-bit: one group, "
+                "32-bit: two groups, 64-bit: four) and every leading hex-group run of an address-like string literal as address PREFIX "
+                "x all zero/non-zero patterns of the remaining groups x fillings, x embedded-IPv4-looking tails, and at every other "
+                "position; address-like string literals (printf conversions substituted) as whole texts and spliced into valid texts; IPv4: products of boundary octets + random; every buffer "
                 "length 0..50 for both families with canaries; strings: render grammar (valid), inet_ntop output, 1-2 edit "
                 "mutations/truncations of valid strings, short/over-long group lists, random strings, raw bytes, sscanf quirk "
                 "probes. distinct = distinct (request, implementation reply) pairs",
